@@ -1,0 +1,31 @@
+//go:build verif
+
+package litestream
+
+import (
+	"context"
+	"time"
+)
+
+// Exported wrappers around the unexported pieces of the v0.3.x restore planner,
+// used only by the verification harness (build tag "verif").
+
+// SortSnapshotsV3ByCreatedAt exposes sortSnapshotsV3ByCreatedAt.
+func SortSnapshotsV3ByCreatedAt(snapshots []SnapshotInfoV3) {
+	sortSnapshotsV3ByCreatedAt(snapshots)
+}
+
+// FindBestSnapshotV3 exposes findBestSnapshotV3.
+func FindBestSnapshotV3(snapshots []SnapshotInfoV3, timestamp time.Time) *SnapshotInfoV3 {
+	return findBestSnapshotV3(snapshots, timestamp)
+}
+
+// FilterWALSegmentsV3 exposes filterWALSegmentsV3.
+func FilterWALSegmentsV3(segments []WALSegmentInfoV3, snapshotIndex int, timestamp time.Time) []WALSegmentInfoV3 {
+	return filterWALSegmentsV3(segments, snapshotIndex, timestamp)
+}
+
+// ShouldUseV3Restore exposes (*Replica).shouldUseV3Restore.
+func (r *Replica) ShouldUseV3Restore(ctx context.Context, client ReplicaClientV3, timestamp time.Time) (bool, error) {
+	return r.shouldUseV3Restore(ctx, client, timestamp)
+}
